@@ -65,21 +65,47 @@ func (s *xSpec) kidTokens(out *[]xml.Token) {
 	}
 }
 
-// failingReader fails (for good) when it is asked for token number `after`.
+// failingReader fails (for good) when it is asked for token number `after`: with an ordinary error, with a network
+// error (the payload is relayed from another connection that ran into its deadline), or - the source simply dried up -
+// with io.EOF while elements are still open.
 type failingReader struct {
 	yieldReader
 	after  int
 	failed bool
+	err    error
 }
 
 func (r *failingReader) Token() (xml.Token, error) {
 	if r.i >= r.after || r.failed {
 		simrt.Yield("tok")
 		r.failed = true
+		if r.err != nil {
+			return nil, r.err
+		}
 		return nil, errBoom
 	}
 	return r.yieldReader.Token()
 }
+
+// openAt: how many elements are open after the first n tokens (not counting the outermost one if outer is set).
+func openAt(toks []xml.Token, n int, outer bool) int {
+	d := 0
+	for _, t := range toks[:min(n, len(toks))] {
+		switch t.(type) {
+		case xml.StartElement:
+			d++
+		case xml.EndElement:
+			d--
+		}
+	}
+	if outer && d > 0 {
+		d--
+	}
+	return d
+}
+
+// failKinds: what a failing payload source reports.
+var failKinds = []error{nil, simnet.ErrInjectedTimeout, io.ErrUnexpectedEOF, io.EOF, fmt.Errorf("relay: %w", simnet.ErrInjectedETIMEDOUT)}
 
 // yieldReader hands out tokens one at a time with a scheduling point before
 // each, so that other tasks may try to get in between two tokens of one element.
@@ -480,7 +506,10 @@ func runC05(rc *RC) {
 			} else {
 				c.spec.kidTokens(&toks)
 			}
-			r := &failingReader{yieldReader: yieldReader{toks: toks}, after: ch.Int("workload", len(toks)+1)}
+			r := &failingReader{yieldReader: yieldReader{toks: toks}, after: ch.Int("workload", len(toks)+1), err: failKinds[ch.Int("workload", len(failKinds))]}
+			if r.err == io.EOF && openAt(toks, r.after, c.kind == "Send-failing-reader") == 0 {
+				r.err = nil // an end of input between two complete children is no truncation anybody could notice
+			}
 			if c.kind == "Send-failing-reader" {
 				c.err = s.Send(ctx, r)
 			} else {
@@ -497,7 +526,10 @@ func runC05(rc *RC) {
 			c.expectFail = true
 			var toks []xml.Token
 			c.spec.tokens(&toks)
-			r := &failingReader{yieldReader: yieldReader{toks: toks}, after: ch.Int("workload", len(toks)+1)}
+			r := &failingReader{yieldReader: yieldReader{toks: toks}, after: ch.Int("workload", len(toks)+1), err: failKinds[ch.Int("workload", len(failKinds))]}
+			if r.err == io.EOF && openAt(toks, r.after, false) == 0 {
+				r.err = nil
+			}
 			c.err = s.Encode(ctx, readerMarshaler{r})
 			if r.failed {
 				rc.Fire("reader-error")
